@@ -8,6 +8,7 @@ import Driver.Rounds
 import Driver.Des
 import Driver.Context
 import Driver.CtxKey
+import Driver.Formats
 import Driver.Blowfish
 import Driver.Scrypt
 /-
@@ -26,6 +27,7 @@ def dispatch (line : String) : String :=
   | "des" :: rest => Driver.Des.handle rest
   | "ctx" :: rest => Driver.Context.handle rest
   | "ctxkey" :: rest => Driver.CtxKey.handle rest
+  | "fmt" :: rest => Driver.Formats.handle rest
   | "bf" :: rest => Driver.Blowfish.handle rest
   | "scrypt" :: rest => Driver.Scrypt.handle rest
   | _ => Driver.bad
